@@ -50,9 +50,9 @@ LEVEL_TEXT = (
     "in-memory loops of activities/daemons/timers are proved to be instances of the same fold. "
     "timeout_failed_for_good is proved for batches merged at once (lag 0) and scripts without "
     "pending-children outcomes, the exact guard under which the code guarantees it. For timers the bounds are "
-    "theorems per retry series; over a timer's whole life the clause is false of the code (finding C11-F1: a "
-    "failed series is restarted from scratch after the interval) — negation proved by witness and replayed on "
-    "the real _timer in every run. Tied to the code by "
+    "theorems per retry series and over the timer's whole life: a new series starts only after a success, a "
+    "series that failed for good is the last thing the timer ever invokes (finding C11-F1, repaired by af4d77a; "
+    "its witness stays in the corpus as a regression case). Tied to the code by "
     "a grid on the real execute_handler_once/with_outcome (complete in thorough) and closed-loop "
     "sequences on the real processing cycle, kopf.execute, run_activity, _daemon, _timer.")
 TIE = ("D: bounded-exhaustive grid on the real execute_handler_once / execute_handlers_once / with_outcome "
@@ -64,7 +64,8 @@ THEOREMS = [("Kopf.Props.C11", "Kopf.C11." + n) for n in [
     "delay_respected", "delay_respected_succ", "final_is_last",
     "retries_bound", "retries_bound_scratch", "retries_bound_tight",
     "timeout_bound", "timeout_refuses", "timeout_failed_for_good_partial", "timeout_sleep_past_witness",
-    "timer_permanent_restarts_witness", "timer_retries_exceeded_witness", "timer_series_is_loop",
+    "timer_failed_never_runs", "timer_failure_is_last", "timer_retry_lt", "timer_retry_steps",
+    "timer_invocations_bound", "timer_series_is_loop",
     "restart_roundtrip", "restart_invariant", "loop_is_run", "loop_retries_bound", "loop_timeout_bound",
     "loop_delay_respected",
 ]]
@@ -1205,6 +1206,16 @@ def _history_checks(hist: dict, kind: str, db: int, env: dict) -> list[dict]:
         obs = run_inmem_history(hist)
         l = obs["limits"]
         for si, events in enumerate(obs["series"]):
+            if kind == "timer":
+                # a timer whose series failed for good keeps sleeping its interval and finds nothing
+                # awakened: those executions are expected (their schedule is C10's subject)
+                kept, failed = [], False
+                for e in events:
+                    if e["ev"] == "attempt":
+                        failed = bool(e["rec"] and e["rec"]["failure"])
+                    if not (e["ev"] == "idle" and e["done"] and failed):
+                        kept.append(e)
+                events = kept
             atts = [e for e in events if e["ev"] == "attempt"]
             bad = oracle_sequence(l, "temporary", db, events)
             bad += [("called-twice", "function called twice in one execution") for e in atts if e["calls"] > 1]
